@@ -57,6 +57,7 @@ class HashGlobalVar(Expression):
             if dst != 0 and force:
                 self.ebpf.append(Opcode.MOV + Opcode.LONG + Opcode.REG, dst,
                                  0, 0, 0)
+                self.ebpf.owners.add(dst)
             else:
                 dst = 0
         yield dst, self.fmt
@@ -91,6 +92,7 @@ class HashGlobalVarDesc:
             return
         with ebpf.save_registers([3]):
             with value.get_address(3, True, True):
+                ebpf.owners.add(3)
                 with ebpf.save_registers([0, 1, 2, 4, 5]), \
                         ebpf.get_stack(4) as stack:
                     ebpf.r1 = ebpf.get_fd(ebpf.__dict__[self.name].fd)
